@@ -105,10 +105,12 @@ Definition hstep (h : hist) (o : hop) : hist * list (Z * Z * Z) :=
   | HPass => (Hist (hk h) (hus h) (repeat 0 (length (hus h))), deliveries h)
   end.
 
-(* run a history; result: the deliveries of each pass, in order *)
-Fixpoint hrun (h : hist) (ops : list hop) : list (list (Z * Z * Z)) :=
+(* run a history; result: the final histogram and the deliveries of each
+   pass, in order *)
+Fixpoint hrun (h : hist) (ops : list hop) : hist * list (list (Z * Z * Z)) :=
   match ops with
-  | [] => []
+  | [] => (h, [])
   | o :: r => let '(h', d) := hstep h o in
-              match o with HPass => d :: hrun h' r | _ => hrun h' r end
+              let '(hf, ds) := hrun h' r in
+              match o with HPass => (hf, d :: ds) | _ => (hf, ds) end
   end.
